@@ -931,6 +931,14 @@ public:
             o["args"] = JArgs(args);
             o["ln"] = ln;
             typeFlags(o, c->getType());
+            // a call that is a constant expression (a constexpr helper computing the length of a literal, ...): its value
+            if (fd && fd->isConstexpr() && !c->isValueDependent() && !c->isTypeDependent() && !c->getType().isNull() &&
+                c->getType()->isIntegralOrEnumerationType())
+            {
+                Expr::EvalResult er;
+                if (c->EvaluateAsInt(er, ctx, Expr::SE_NoSideEffects) && er.Val.isInt())
+                    o["cval"] = (int64_t)er.Val.getInt().getExtValue();
+            }
             return o;
         }
         if (auto* ce = dyn_cast<CXXConstructExpr>(e))
